@@ -414,7 +414,11 @@ func (e *Engine) cevalCall(n *CCall, env *Env) Value {
 		if env.old == nil {
 			cfail("old() not available here")
 		}
-		return e.ceval(n.Args[0], env.old)
+		oe := *env.old
+		oe.bound = env.bound
+		oe.kTerm = env.kTerm
+		oe.kOther = env.kOther
+		return e.ceval(n.Args[0], &oe)
 	case "ascii":
 		return Sc{app("gs.ascii", sarg(0).T), SBool}
 	case "real", "float64":
@@ -459,6 +463,13 @@ func (e *Engine) cevalCall(n *CCall, env *Env) Value {
 			return v
 		}
 		cfail("unknown ghost variable %s", id.Name)
+	case "sameRow":
+		a, ok1 := arg(0).(SliceV)
+		b, ok2 := arg(1).(SliceV)
+		if !ok1 || !ok2 {
+			cfail("sameRow() needs two slices")
+		}
+		return Sc{app("=", a.Ref, b.Ref), SBool}
 	case "fresh":
 		// storage of the slice was allocated during this call
 		if v, ok := arg(0).(SliceV); ok && env.st != nil {
